@@ -1178,15 +1178,8 @@ func (e *ctEngine) checkMoney(cur []KV) {
 		}
 	}
 	raw := map[string]int64{}
-	for _, kv := range cur {
-		if len(kv.K) != 21 || kv.K[0] != 'a' {
-			continue
-		}
-		it, err := stackitem.Deserialize(kv.V)
-		if err != nil {
-			harnessf("balance account %x: %v", kv.K, err)
-		}
-		raw[string(kv.K[1:])] = ItemInt(ItemArr(it)[0]).Int64()
+	for a, rec := range RawBalanceAccounts(cur) {
+		raw[a] = rec.Balance.Int64()
 	}
 	var accs []string
 	var calls []ctCall
@@ -1280,6 +1273,22 @@ func (e *ctEngine) checkStorage(cur []KV) {
 			// property's state
 		}
 	}
+	// Which of the documented key shapes occur at all. A shape that the model
+	// expects somewhere but that occurs nowhere means the layout in use is not
+	// the documented one (a renamed prefix, say): the absence rules of that
+	// shape are then not applied (counted), the read API rules stay in force.
+	var seen rawC
+	for _, c := range raw {
+		seen.x = seen.x || c.x
+		seen.d = seen.d || c.d
+		seen.m = seen.m || c.m
+		seen.eacl = seen.eacl || c.eacl
+		seen.hasAlias = seen.hasAlias || c.hasAlias
+		if len(c.o) > 0 {
+			seen.o = []string{"seen"}
+		}
+	}
+	unrec := func(shape string) { r.Count("raw_layout_unrecognised." + shape) }
 	ids := map[string]bool{}
 	for id := range raw {
 		ids[id] = true
@@ -1308,23 +1317,43 @@ func (e *ctEngine) checkStorage(cur []KV) {
 				r.Violation("C04/tombstone-mismatch", "", "%s is live but has a tombstone", name)
 			}
 			own := e.owners[l.owner].id
-			if !c.x || len(c.o) != 1 || c.o[0] != string(own) || !bytes.Equal(c.oval[0], []byte(id)) {
+			xOK := c.x || !seen.x
+			oOK := len(c.o) == 1 && c.o[0] == string(own) && bytes.Equal(c.oval[0], []byte(id)) || len(c.o) == 0 && len(seen.o) == 0
+			if !xOK || !oOK {
 				r.Violation("C04/index-mismatch", "", "%s is live: descriptor key %v, owner index entries %x (values %x), expected one for %x", name, c.x, c.o, c.oval, own)
 			}
-			if c.hasAlias != (l.alias() != "") || c.alias != l.alias() {
+			if !c.x && !seen.x {
+				unrec("descriptor")
+			}
+			if len(c.o) == 0 && len(seen.o) == 0 {
+				unrec("owner-index")
+			}
+			switch {
+			case !c.hasAlias && l.alias() != "" && !seen.hasAlias:
+				unrec("alias")
+			case c.hasAlias != (l.alias() != "") || c.alias != l.alias():
 				r.Violation("C04/index-mismatch", "", "%s: stored alias %q (present %v), model %q", name, c.alias, c.hasAlias, l.alias())
 			}
-			if c.eacl != (l.eacl != nil) {
+			switch {
+			case !c.eacl && l.eacl != nil && !seen.eacl:
+				unrec("eacl")
+			case c.eacl != (l.eacl != nil):
 				r.Violation("C04/index-mismatch", "", "%s: eACL key present %v, model %v", name, c.eacl, l.eacl != nil)
 			}
 			if l.metaDC {
 				l.meta, l.metaDC = c.m, false
 			}
-			if c.m != l.meta {
+			switch {
+			case !c.m && l.meta && !seen.m:
+				unrec("meta")
+			case c.m != l.meta:
 				r.Violation("C04/index-mismatch", "", "%s: meta flag %v, model %v", name, c.m, l.meta)
 			}
 		case m.dead[id] != nil:
-			if !c.d {
+			switch {
+			case !c.d && !seen.d:
+				unrec("tombstone")
+			case !c.d:
 				r.Violation("C04/tombstone-mismatch", "", "%s was deleted but has no tombstone", name)
 			}
 			if c.x || len(c.o) > 0 || c.eacl || c.hasAlias || c.m {
